@@ -2,7 +2,7 @@
    [build_checked] is the model of spox.build (coq/Build.v build_public) followed by the model's own validators;
    the per-run correspondence shows that the real build returns exactly [build_checked]'s model (names included). *)
 From Coq Require Import List String NArith Arith Bool.
-From Spox Require Import Base IR Show Build Validate BuildFacts ScopeFacts EmitFacts SsaFacts GlobalFacts InlineDefs.
+From Spox Require Import Base IR Show Build Validate BuildFacts ScopeFacts EmitFacts SsaFacts GlobalFacts InlineDefs GlobalInline.
 Import ListNotations.
 
 (* A model is returned only after the final structural check (per-graph SSA without shadowing, definition before use
@@ -119,3 +119,36 @@ Theorem C02_reserved_names_persist_and_name_no_var :
   (forall s x v, ScopeInv s -> In x (reserved s) -> lookup var_eqb v (vname s) <> Some x).
 Proof. split; [exact compile_reserved_persist|exact reserved_is_no_var_name]. Qed.
 Print Assumptions C02_reserved_names_persist_and_name_no_var.
+
+(* The whole model INCLUDING inlined blocks, by construction (no validator): every non-empty value name - graph inputs, node outputs and
+   the internal names of every inlined block, in the main graph and in every nested graph - is defined exactly once.  Premises
+   (decidable, evaluated on every program of the check): no source node occurs twice in the unfolding of the ownership map, and every
+   inlined model defines each of its names once, none of them under the name of one of its inputs, and is not applied to its own outputs.
+   The premise on the inlined model cannot be dropped: the pinned code keeps a duplication the inlined model already has (known finding F33). *)
+Theorem C02_value_names_unique_in_the_whole_model_with_inlined_blocks_by_construction :
+  forall vi ffuel p un main b,
+    build_main_gen vi ffuel p un main = inl b -> global_premises2_b p main = true -> NoDup (nonempty (defs_graph (b_graph b))).
+Proof. exact build_main_global2. Qed.
+Print Assumptions C02_value_names_unique_in_the_whole_model_with_inlined_blocks_by_construction.
+
+Theorem C02_public_build_value_names_unique_with_inlined_blocks_by_construction :
+  forall p r m inputs outputs,
+    build_public p r = inl m -> all_vars (r_inputs r) = Some inputs -> all_vars (r_outputs r) = Some outputs ->
+    exists args, (r_drop r = false -> args = map snd inputs) /\ (forall a, In a args -> In a (map snd inputs)) /\
+      (global_premises2_b (with_main p (Some args) outputs) 0 = true -> NoDup (nonempty (defs_graph (mmain m)))).
+Proof. exact build_public_global2. Qed.
+Print Assumptions C02_public_build_value_names_unique_with_inlined_blocks_by_construction.
+
+(* One inlined block: its non-empty definitions are pairwise distinct, each the table entry of an output Var of the Inline node or a name
+   reserved while the block was emitted (not reserved before), and the naming tables stay injective. *)
+Theorem C02_inlined_block_defines_each_name_once :
+  forall p un fbuild rec prefix ms s rq fs sfs n acc' gi gin body go_ vi imp,
+  compile_step p un fbuild rec prefix (ms, s, rq, fs, sfs) (NReal n) = inl acc' ->
+  is_arg p (NReal n) = false -> kind (getn p n) = KInline (OGraph gi gin body go_ vi) imp -> ScopeInv s ->
+  inline_ok n (ins (getn p n)) gi body ->
+  let '(ms', s', _, _, _) := acc' in
+  exists nm inn outn b, ms' = ms ++ [MInline nm (NReal n) inn outn b] /\
+    ScopeInv s' /\ IOFacts.Ext s s' /\ Rsub s s' /\
+    NoDup (nonempty (flat_map defs_raw b)) /\ WN s s' [NReal n] (nonempty (flat_map defs_raw b)).
+Proof. exact inline_step_unique. Qed.
+Print Assumptions C02_inlined_block_defines_each_name_once.
